@@ -1033,19 +1033,22 @@ def nc1(F, R):
     from .absint import Interp, State, Undecided
     from .absval import const, is_agg, int_const, is_int
     fn = F.fn(FATVOL + "::next_cluster")
-    arms = fat_arms(fn)
-    errname = F.variants("Error") if False else None
+    from .rules_fs import fat_views
+    views = fat_views(fn)
     for arm, rd, width, table, consts in (("Fat16", "read_u16", 16, NC_TABLE16, {0xFFF7, 0xFFF8, 0xFFFF}), ("Fat32", "read_u32", 32, NC_TABLE32, {0, 1, 0x0FFFFFF7, 0x0FFFFFF8, 0x0FFFFFFF, 0x0FFFFFFF})):
-        sites = [(b, t) for b, t in fn.calls() if b in arms[arm] and (callee_of(t) or "").endswith(rd)]
+        # (decided on the function as it is for this FAT type: markers kept in per-type variables are constants there)
+        fv = views[arm]
+        sites = [(b, t) for b, t in fv.calls() if (callee_of(t) or "").endswith(rd)]
         if len(sites) != 1:
             R.bad(fn, arm + ":read", "expected one %s of the FAT entry in the %s arm" % (rd, arm), fn.loc(0), kind="anchor-missing")
             continue
         b0, t0 = sites[0]
+        t0 = fn.term(b0)
         dest = t0["dest"]["l"]
         # constants the entry is compared with
         seen = set()
-        for (gb, gi, g) in all_guards(fn):
-            if gb not in arms[arm] or not has_sub(g.term, lambda q: q[0] == "call" and q[1] and q[1].endswith(rd)):
+        for (gb, gi, g) in all_guards(fv):
+            if not has_sub(g.term, lambda q: q[0] == "call" and q[1] and q[1].endswith(rd)):
                 continue
             if g.kind == "value":
                 seen.add(g.value)
@@ -1249,8 +1252,11 @@ def md10(F, R):
         return
     start = fn.succ(nf[0][0])[nf[0][1]][0]
     want = {"ReadWriteCreate", "ReadWriteCreateOrTruncate", "ReadWriteCreateOrAppend"}
+    # past the NotFound edge the lookup's answer is an Err: a later `?` / match on the same result cannot take its Ok side
+    is_lookup = lambda q: q is not None and q[0] == "call" and q[1] and path_matches(q[1], "FatVolume::find_directory_entry")
+    premise = [(gb, gi) for (gb, gi, g) in all_guards(fn) if g.kind == "variant" and ((g.variant == "Continue" and is_lookup(try_inner(g.term))) or (g.variant == "Ok" and is_lookup(strip_refs(g.term))))]
     for mi, m in enumerate(modes):
-        cut = []
+        cut = list(premise)
         for (gb, gi, g) in all_guards(fn):
             if g.kind == "bool":
                 v = _eval_mode(g.term, m, mi)
@@ -1270,7 +1276,8 @@ def md10(F, R):
                     cut.append((gb, gi))
         # boolean temporaries set in the arms of a `matches!(mode, ..)`: decided once only one constant definition stays reachable
         for _round in range(4):
-            rs = fn.reach([start], cut_edges=cut)
+            # (the temporary may be set before the lookup: `let may_create = matches!(mode, ..)` - reachability from the entry)
+            rs = fn.reach([0], cut_edges=cut)
             grew = False
             for (gb, gi, g) in all_guards(fn):
                 t_ = strip_refs(g.term)
@@ -1524,10 +1531,13 @@ def fs1(F, R):
     from .rules_walk import slice_window
     from .mir import success_value
     fn = F.fn(FATVOL + "::find_next_free_cluster")
-    reads = [(b, t) for b, t in fn.calls() if (callee_of(t) or "").split("::")[-1] in ("read_u16", "read_u32", "from_le_bytes")]
-    R.require(len(reads) >= 2, fn, "reads", "expected the FAT16 and the FAT32 entry read in find_next_free_cluster, found %d" % len(reads), fn.loc(0))
+    # (each read is judged in the function as it is for the FAT type it belongs to: the entry width may be a per-type variable)
+    from .rules_fs import fat_views
+    fn0 = fn
+    reads = [(fv, b, t) for arm_, fv in sorted(fat_views(fn0).items()) for b, t in fv.calls() if (callee_of(t) or "").split("::")[-1] in ("read_u16", "read_u32", "from_le_bytes")]
+    R.require(len(reads) >= 2, fn0, "reads", "expected the FAT16 and the FAT32 entry read in find_next_free_cluster, found %d" % len(reads), fn.loc(0))
 
-    def starts_at_entry(t_, width, depth=0):
+    def starts_at_entry(fn, t_, width, depth=0):
         """t_ (a byte offset) is, or starts as, (cluster.0 * width) % 512"""
         t0 = strip_refs(t_)
         for _k in range(12):            # conversions and their success payloads are transparent
@@ -1546,9 +1556,9 @@ def fs1(F, R):
             ds = var_def_terms(fn, t0[1])
             inits = [d for d in ds if not (strip_refs(d)[0] == "bin" and strip_refs(d)[1] == "Add" and strip_refs(strip_refs(d)[2]) == t0)]
             steps = [d for d in ds if d not in inits]
-            return len(inits) == 1 and starts_at_entry(inits[0], width, depth + 1) and all(strip_refs(d)[3][:2] == ("c", width) for d in steps)
+            return len(inits) == 1 and starts_at_entry(fn, inits[0], width, depth + 1) and all(strip_refs(d)[3][:2] == ("c", width) for d in steps)
         return False
-    for b, t in reads:
+    for fn, b, t in reads:
         nm = (callee_of(t) or "").split("::")[-1]
         width = 2 if nm == "read_u16" or "u16" in t.get("callee_full", "").split("::from_le_bytes")[0][-6:] else 4
         a = fn.term_of_operand(t["args"][0], b)
@@ -1569,8 +1579,8 @@ def fs1(F, R):
                         if q[0] == "call" and q[1] and q[1].endswith(("chunks_exact", "chunks")) and len(q[2]) == 2:
                             w2 = slice_window(q[2][0])
                             start = w2[1] if w2 is not None else ("c", 0, None)
-        ok = start is not None and starts_at_entry(start, width)
-        R.require(ok, fn, "entry-of-cluster:%d" % width, "the %d-byte FAT entries the scan tests are not read from (cluster * %d) %% 512 of the block onwards (start: %s): the scan tests entries of other clusters than the one it counts" % (width, width, tstr(start)[:80] if start is not None else None), fn.loc(b))
+        ok = start is not None and starts_at_entry(fn, start, width)
+        R.require(ok, fn0, "entry-of-cluster:%d" % width, "the %d-byte FAT entries the scan tests are not read from (cluster * %d) %% 512 of the block onwards (start: %s): the scan tests entries of other clusters than the one it counts" % (width, width, tstr(start)[:80] if start is not None else None), fn.loc(b))
 
 
 @rule("TB1", ["C04", "C02", "C06", "C03"], floor=3,
